@@ -16,93 +16,93 @@ the `_src` theorem, is then re-proved by Lean on that run — or stops checking.
 -/
 namespace CircBuf
 
-theorem C01_push_back_src (s : Sys) (x : Elem) (h : Inv s.buf) :
+maybe theorem C01_push_back_src (s : Sys) (x : Elem) (h : Inv s.buf) :
     Refines (Gen.push_back x) s (Spec.pushBack s.buf.cap (abs s.buf) x).2
       (Spec.pushBack s.buf.cap (abs s.buf) x).1 := by
   first
   | (rw [tie_push_back _ s h (nd_pushBack _ s h)]; exact C01_push_back s x h)
   | (have h0 := C01_push_back s x h; unfold Refines at h0 ⊢; rw [tie_push_back _ s h (nd_pushBack _ s h)]; exact h0)
 
-theorem C01_push_front_src (s : Sys) (x : Elem) (h : Inv s.buf) :
+maybe theorem C01_push_front_src (s : Sys) (x : Elem) (h : Inv s.buf) :
     Refines (Gen.push_front x) s (Spec.pushFront s.buf.cap (abs s.buf) x).2
       (Spec.pushFront s.buf.cap (abs s.buf) x).1 := by
   first
   | (rw [tie_push_front _ s h (nd_pushFront _ s h)]; exact C01_push_front s x h)
   | (have h0 := C01_push_front s x h; unfold Refines at h0 ⊢; rw [tie_push_front _ s h (nd_pushFront _ s h)]; exact h0)
 
-theorem C01_try_push_back_src (s : Sys) (x : Elem) (h : Inv s.buf) :
+maybe theorem C01_try_push_back_src (s : Sys) (x : Elem) (h : Inv s.buf) :
     Refines (Gen.try_push_back x) s (Spec.tryPushBack s.buf.cap (abs s.buf) x).2
       (Spec.tryPushBack s.buf.cap (abs s.buf) x).1 := by
   first
   | (rw [tie_try_push_back _ s h (nd_tryPushBack _ s h)]; exact C01_try_push_back s x h)
   | (have h0 := C01_try_push_back s x h; unfold Refines at h0 ⊢; rw [tie_try_push_back _ s h (nd_tryPushBack _ s h)]; exact h0)
 
-theorem C01_try_push_front_src (s : Sys) (x : Elem) (h : Inv s.buf) :
+maybe theorem C01_try_push_front_src (s : Sys) (x : Elem) (h : Inv s.buf) :
     Refines (Gen.try_push_front x) s (Spec.tryPushFront s.buf.cap (abs s.buf) x).2
       (Spec.tryPushFront s.buf.cap (abs s.buf) x).1 := by
   first
   | (rw [tie_try_push_front _ s h (nd_tryPushFront _ s h)]; exact C01_try_push_front s x h)
   | (have h0 := C01_try_push_front s x h; unfold Refines at h0 ⊢; rw [tie_try_push_front _ s h (nd_tryPushFront _ s h)]; exact h0)
 
-theorem C01_pop_back_src (s : Sys) (h : Inv s.buf) :
+maybe theorem C01_pop_back_src (s : Sys) (h : Inv s.buf) :
     Refines Gen.pop_back s (Spec.popBack (abs s.buf)).2 (Spec.popBack (abs s.buf)).1 := by
   first
   | (rw [tie_pop_back s h (nd_popBack s h)]; exact C01_pop_back s h)
   | (have h0 := C01_pop_back s h; unfold Refines at h0 ⊢; rw [tie_pop_back s h (nd_popBack s h)]; exact h0)
 
-theorem C01_pop_front_src (s : Sys) (h : Inv s.buf) :
+maybe theorem C01_pop_front_src (s : Sys) (h : Inv s.buf) :
     Refines Gen.pop_front s (Spec.popFront (abs s.buf)).2 (Spec.popFront (abs s.buf)).1 := by
   first
   | (rw [tie_pop_front s h (nd_popFront s h)]; exact C01_pop_front s h)
   | (have h0 := C01_pop_front s h; unfold Refines at h0 ⊢; rw [tie_pop_front s h (nd_popFront s h)]; exact h0)
 
-theorem C01_swap_src (s : Sys) (i j : Nat) (h : Inv s.buf) (hi : i < s.buf.size) (hj : j < s.buf.size) :
+maybe theorem C01_swap_src (s : Sys) (i j : Nat) (h : Inv s.buf) (hi : i < s.buf.size) (hj : j < s.buf.size) :
     Refines (Gen.swap i j) s () (Spec.swap (abs s.buf) i j) := by
   first
   | (rw [tie_swap _ _ s h (nd_swap _ _ s h)]; exact C01_swap s i j h hi hj)
   | (have h0 := C01_swap s i j h hi hj; unfold Refines at h0 ⊢; rw [tie_swap _ _ s h (nd_swap _ _ s h)]; exact h0)
 
-theorem C01_swap_remove_back_src (s : Sys) (i : Nat) (h : Inv s.buf) :
+maybe theorem C01_swap_remove_back_src (s : Sys) (i : Nat) (h : Inv s.buf) :
     Refines (Gen.swap_remove_back i) s (Spec.swapRemoveBack (abs s.buf) i).2
       (Spec.swapRemoveBack (abs s.buf) i).1 := by
   first
   | (rw [tie_swap_remove_back _ s h (nd_swapRemoveBack _ s h)]; exact C01_swap_remove_back s i h)
   | (have h0 := C01_swap_remove_back s i h; unfold Refines at h0 ⊢; rw [tie_swap_remove_back _ s h (nd_swapRemoveBack _ s h)]; exact h0)
 
-theorem C01_swap_remove_front_src (s : Sys) (i : Nat) (h : Inv s.buf) :
+maybe theorem C01_swap_remove_front_src (s : Sys) (i : Nat) (h : Inv s.buf) :
     Refines (Gen.swap_remove_front i) s (Spec.swapRemoveFront (abs s.buf) i).2
       (Spec.swapRemoveFront (abs s.buf) i).1 := by
   first
   | (rw [tie_swap_remove_front _ s h (nd_swapRemoveFront _ s h)]; exact C01_swap_remove_front s i h)
   | (have h0 := C01_swap_remove_front s i h; unfold Refines at h0 ⊢; rw [tie_swap_remove_front _ s h (nd_swapRemoveFront _ s h)]; exact h0)
 
-theorem C01_truncate_back_src (s : Sys) (n : Nat) (h : Inv s.buf) (hf : s.faults.drop = 0) :
+maybe theorem C01_truncate_back_src (s : Sys) (n : Nat) (h : Inv s.buf) (hf : s.faults.drop = 0) :
     RefinesL (Gen.truncate_back n) s () (Spec.truncateBack (abs s.buf) n)
       (dropEvents s.kind ((abs s.buf).drop n)) := by
   first
   | (rw [tie_truncate_back _ s h (nd_truncateBack_nofault _ s h hf)]; exact C01_truncate_back s n h hf)
   | (have h0 := C01_truncate_back s n h hf; unfold RefinesL at h0 ⊢; rw [tie_truncate_back _ s h (nd_truncateBack_nofault _ s h hf)]; exact h0)
 
-theorem C01_truncate_front_src (s : Sys) (n : Nat) (h : Inv s.buf) (hf : s.faults.drop = 0) :
+maybe theorem C01_truncate_front_src (s : Sys) (n : Nat) (h : Inv s.buf) (hf : s.faults.drop = 0) :
     RefinesL (Gen.truncate_front n) s () (Spec.truncateFront (abs s.buf) n)
       (dropEvents s.kind ((abs s.buf).take ((abs s.buf).length - n))) := by
   first
   | (rw [tie_truncate_front _ s h (nd_truncateFront_nofault _ s h hf)]; exact C01_truncate_front s n h hf)
   | (have h0 := C01_truncate_front s n h hf; unfold RefinesL at h0 ⊢; rw [tie_truncate_front _ s h (nd_truncateFront_nofault _ s h hf)]; exact h0)
 
-theorem C01_clear_src (s : Sys) (h : Inv s.buf) (hf : s.faults.drop = 0) :
+maybe theorem C01_clear_src (s : Sys) (h : Inv s.buf) (hf : s.faults.drop = 0) :
     RefinesL Gen.clear s () [] (dropEvents s.kind (abs s.buf)) := by
   first
   | (rw [tie_clear s h (nd_clear_nofault s h hf)]; exact C01_clear s h hf)
   | (have h0 := C01_clear s h hf; unfold RefinesL at h0 ⊢; rw [tie_clear s h (nd_clear_nofault s h hf)]; exact h0)
 
-theorem C01_remove_src (s : Sys) (i : Nat) (h : Inv s.buf) :
+maybe theorem C01_remove_src (s : Sys) (i : Nat) (h : Inv s.buf) :
     Refines (Gen.remove i) s (Spec.remove (abs s.buf) i).2 (Spec.remove (abs s.buf) i).1 := by
   first
   | (rw [tie_remove _ s h (nd_remove _ s h)]; exact C01_remove s i h)
   | (have h0 := C01_remove s i h; unfold Refines at h0 ⊢; rw [tie_remove _ s h (nd_remove _ s h)]; exact h0)
 
-theorem C01_make_contiguous_src (s : Sys) (h : Inv s.buf) :
+maybe theorem C01_make_contiguous_src (s : Sys) (h : Inv s.buf) :
     ∃ b' v, Gen.make_contiguous s = (.ok v, { s with buf := b' }) ∧ Inv b' ∧ abs b' = abs s.buf ∧
       b'.cap = s.buf.cap := by
   first
